@@ -3,7 +3,7 @@
 import json, os, glob, sys, re
 V = os.path.dirname(os.path.dirname(os.path.abspath(__file__)))
 res = json.load(open(os.path.join(V, 'seeded', 'results.json')))
-rounds = {'1': lambda n: re.fullmatch(r'C\d\d-\d', n), '2': lambda n: '-b' in n, '3': lambda n: '-c' in n, '4': lambda n: '-d' in n, '5': lambda n: '-e' in n, '6': lambda n: '-f' in n, '7': lambda n: '-g' in n, '8': lambda n: '-h' in n, '9': lambda n: '-i' in n}
+rounds = {'1': lambda n: re.fullmatch(r'C\d\d-\d', n), '2': lambda n: '-b' in n, '3': lambda n: '-c' in n, '4': lambda n: '-d' in n, '5': lambda n: '-e' in n, '6': lambda n: '-f' in n, '7': lambda n: '-g' in n, '8': lambda n: '-h' in n, '9': lambda n: '-i' in n, '10': lambda n: '-j' in n}
 which = sys.argv[1] if len(sys.argv) > 1 else None
 tot = {}
 for rd, pred in rounds.items():
